@@ -326,7 +326,8 @@ def norm(res, is_mathml=False):
     if res["r"] == "err":
         # the error chain quotes rule patterns and dumps the internal tree line by line; the dump is a diagnostic, not a result
         # (it shows e.g. the Nemeth nesting-level cache attribute), so lines that are XML are left out of the comparison
-        lines = [l for l in res.get("e", "").splitlines() if not l.lstrip().startswith("<")]
+        # (an element quoted INSIDE a message line is part of the same diagnostic: its tag is reduced to the element name)
+        lines = [re.sub(r"<\s*(/?[A-Za-z][\w:.-]*)[^<>]*>", r"<\1>", l) for l in res.get("e", "").splitlines() if not l.lstrip().startswith("<")]
         return ("err", ID_RX.sub(r"ID-\1", "\n".join(lines)))
     return ("panic", (res.get("p") or {}).get("fn", "").split(" <- ")[0])
 
